@@ -505,7 +505,7 @@ class GeopackageLevelCache(TileCacheBase):
             res = self._get_level(level).store_tiles(tiles, dimensions=dimensions)
             if not res:
                 failed = True
-        return failed
+        return not failed
 
     def load_tile(self, tile, with_metadata=False, dimensions=None):
         if tile.source or tile.coord is None:
